@@ -9,6 +9,7 @@ exec 9>/tmp/seedtest.lock; flock 9
 reset() { git -C $WT reset -q --hard "$(git -C /repo rev-parse HEAD)"; git -C $WT clean -qfd; }
 putdemo() { case "$TARGETFILE" in tests:*) f="$WT/${TARGETFILE#tests:}"; mkdir -p "$(dirname "$f")"; cp "$D/demo.rs" "$f";; *) cat "$D/demo.rs" >> "$WT/$TARGETFILE";; esac; }
 KIND="--lib"; case "$TARGETFILE" in tests:*) KIND="--test $(basename "${TARGETFILE%.rs}")";; esac
+KIND="${KINDOVR:-$KIND}"
 run() { (cd $WT && cargo test -p "$CRATE" --offline ${EXTRA:-} $KIND $FILTER 2>&1 | grep -E "^test result|error(\[|:)" | head -3); }
 names() { (cd $WT && cargo test -p "$CRATE" --offline --lib 2>&1 | grep -E "^test .* \.\.\. ok" | sort | md5sum; ); }
 reset; B=$(names); putdemo; echo "-- demo WITHOUT patch:"; run
